@@ -118,6 +118,12 @@ def run_harnesses(scratch, harnesses, timeout, jobs=None, extra=None):
         cmd += extra
     t0 = time.time()
     rc, out, secs = run(cmd, cwd=scratch.repo, timeout=timeout)
+    try:
+        d = os.path.join(CACHE, "logs")
+        os.makedirs(d, exist_ok=True)
+        open(os.path.join(d, "kani-%s-%d.log" % (os.path.basename(scratch.root), len(harnesses))), "w").write(out)
+    except OSError:
+        pass
     res = _parse(out, harnesses)
     if rc == -9:
         for r in res.values():
